@@ -344,12 +344,12 @@ func (e *Engine) opNew(c *cursor) *Violation {
 		e.St.Skipped++
 		return nil
 	}
-	if op.With && len(op.Add) == 0 {
+	if op.With && len(op.Add) == 0 && c.n(2) == 0 {
 		op.With = false // NewBuilderWith() / NewEntityWith() without components take the ID path
 		if op.Variant == "NewEntityWith" {
 			op.Variant = "NewEntity"
 		}
-	}
+	} // else: the component-value entry points with an empty (not nil) list of components
 	res, ok, v := e.issue(op, e.creationLegal(op))
 	if v != nil || !ok {
 		return v
@@ -395,7 +395,7 @@ func (e *Engine) opNewBatch(c *cursor) *Violation {
 	if op.Q {
 		op.Variant = "Builder.NewBatchQ"
 	}
-	if op.With && len(op.Add) == 0 {
+	if op.With && len(op.Add) == 0 && c.n(2) == 0 {
 		op.With = false
 	}
 	if (e.full() || len(e.M.Alive)+op.Count > e.P.EntityCap+40) && op.Illegal == "" && !e.locked() {
@@ -704,7 +704,28 @@ func (e *Engine) opExchange(c *cursor) *Violation {
 func (e *Engine) breakExchange(c *cursor, op *COp, me *MEnt, present, absent []int) {
 	rels, plains := e.relTypes()
 	_ = plains
-	switch c.n(10) {
+	switch c.n(12) {
+	case 10, 11:
+		// a relation argument that the resulting entity does not carry / that is not a relation type
+		if op.HasTgt && op.Rel >= 0 && (op.Variant == "Relations.Exchange" || op.Variant == "Builder.Add") {
+			res := (me.Cs &^ setOf(op.Rem)) | setOf(op.Add)
+			var missing, plainIn []int
+			for _, t := range e.regTypes() {
+				if res&(1<<uint(t)) == 0 {
+					missing = append(missing, t)
+				} else if e.M.RelMask&(1<<uint(t)) == 0 {
+					plainIn = append(plainIn, t)
+				}
+			}
+			k := c.n(1 << 16)
+			if len(missing) > 0 && (k%2 == 0 || len(plainIn) == 0) {
+				op.Rel = missing[(k/2)%len(missing)]
+				op.Illegal = "relation-missing"
+			} else if len(plainIn) > 0 {
+				op.Rel = plainIn[(k/2)%len(plainIn)]
+				op.Illegal = "not-a-relation"
+			}
+		}
 	case 0:
 		if h, ok := e.pickDead(c, c.n(2) == 0); ok {
 			op.Ent = h
